@@ -297,7 +297,13 @@ func init() {
 			return strings.Join(p, ",")
 		}
 		for i := 0; i < g.N(600, 6000); i++ {
-			r, a := shapes(g.Intn(5)), shapes(g.Intn(5))
+			cnt := func() int {
+				if g.Intn(12) == 0 {
+					return 0
+				}
+				return 1 + g.Intn(4)
+			}
+			r, a := shapes(cnt()), shapes(cnt())
 			tag := "gm:random"
 			if r == "-" || a == "-" {
 				tag = "gm:empty"
@@ -375,9 +381,11 @@ func init() {
 			tag := "seq:random"
 			expect := 1
 			nw := 1 + g.Intn(3)
+			multiDone := false
 			for w := 0; w < nw; w++ {
 				wn := append([]string(nil), names...)
 				wt := append([]string(nil), types...)
+				valid := true
 				switch g.Intn(8) {
 				case 0: // reorder
 					g.R.Shuffle(len(wn), func(a, b int) { wn[a], wn[b] = wn[b], wn[a]; wt[a], wt[b] = wt[b], wt[a] })
@@ -399,21 +407,30 @@ func init() {
 				case 3:
 					wn[g.Intn(len(wn))] = "ZZ"
 					tag = "seq:random:rename"
+					valid = false
 				case 4:
 					wn, wt = append(wn, "EX"), append(wt, "i4")
 					tag = "seq:random:extra"
+					valid = false
 				case 5:
 					if len(wn) > 1 {
 						wn, wt = wn[1:], wt[1:]
 						tag = "seq:random:missing"
+						valid = false
 					}
 				}
-				if g.Intn(6) == 0 { // two buckets in one request, the second one unknown or mismatching
+				// two buckets in one request, the second one mismatching (at most one such request per
+				// scenario: the op must observe every combination of iteration orders)
+				if !multiDone && g.Intn(6) == 0 {
+					multiDone = true
 					k2 := fmt.Sprintf("T%d/1Min/G", i)
 					steps = append([]string{"C:" + k2 + ":" + cols([]string{"OTHER"}, []string{"i4"})}, steps...)
 					steps = append(steps, "M:"+key+","+k2+":"+cols(wn, wt)+":"+rowsFor(wt, 1, w)+"|"+rowsFor(wt, 1, w+5))
 					tag = "seq:random:multi"
-					expect = 2
+					if valid {
+						expect = 2
+						tag = "seq:random:multi-one-valid"
+					}
 				} else {
 					steps = append(steps, "W:"+key+":"+cols(wn, wt)+":"+rowsFor(wt, 1+g.Intn(2), w*3))
 				}
